@@ -600,7 +600,7 @@ func quantifierOK(d *model.Desc, script []model.Event) bool {
 	for _, m := range d.Mappings {
 		for _, sa := range m.Analog {
 			for _, a := range sa.Axes {
-				if a.Type == "action" && a.Min == -1 && a.Max == 1 {
+				if a.Type == "action" {
 					if _, ok := hats[a.Code]; !ok {
 						hats[a.Code] = a
 					}
